@@ -248,3 +248,61 @@ Example ex_registry_id_in_use :
   snd (Registry.rrun Registry.reg0 [Registry.RSetRoot 1 128; Registry.RDefSer 0 10; Registry.RDefEnum 1 11; Registry.RDefSer 1 12; Registry.RDefEnum 1 10]) =
   [(0, 0); (128, 0); (128, 1); (129, 0); (130, 0)].
 Proof. exact RegistryP.id_in_use_refused. Qed.
+
+(* ---------- kernels REGENERATED from mpgameserver/serializable.py on every run (tools/py2v_bytes.py,
+   Gen/SerKernels.v): the translated source text is the hand-written model the theorems above are about *)
+From Model Require StructPack.
+From Gen Require SerKernels.
+From Proofs Require SerKernelsP.
+
+(* 19. serialize_int as written in the source (width selection by abs(value), the four struct.pack
+       formats, struct.error beyond 64 bits) is Ser.enc_int, byte for byte, for every integer; the two size
+       limits and every base type id are the model's *)
+Theorem C13_kernel_int : forall z,
+  match SerKernels.gen_serialize_int z with
+  | Ok b => enc_int z = SOk b
+  | Err e => e = EStruct /\ enc_int z = SErr (SE EValue)
+  end.
+Proof. exact SerKernelsP.gen_serialize_int_spec. Qed.
+Print Assumptions C13_kernel_int.
+
+(* 20. the other translated stream writers: bool, None and bytes (length limit, tag, length, data) *)
+Theorem C13_kernel_writers : forall (fc : fconv) (reg : registry),
+  (SerKernels.gen_ser_MAX_BYTES_LENGTH = MAXB /\ SerKernels.gen_ser_MAX_ARRAY_LENGTH = MAXA) /\
+  (forall b : bool, SerKernels.gen_serialize_bool (if b then 1 else 0) = Ok (tag 1 ++ [if b then x01 else x00])) /\
+  (forall z, SerKernels.gen_serialize_null z = Ok (tag 15)) /\
+  (forall bs, match SerKernels.gen_serialize_bytes bs with
+              | Ok r => enc fc reg (VBytes bs) = SOk r
+              | Err e => e = EValue /\ enc fc reg (VBytes bs) = SErr (SE EValue)
+              end).
+Proof.
+  intros fc reg. split; [exact SerKernelsP.gen_limits|]. split; [exact SerKernelsP.gen_serialize_bool_spec|].
+  split; [exact SerKernelsP.gen_serialize_null_spec|]. exact (SerKernelsP.gen_serialize_bytes_spec fc reg).
+Qed.
+Print Assumptions C13_kernel_writers.
+
+(* 21. the deserialize_types table of the source (dict literal, the later subscript assignments, the
+       duplicate id 11 where float32 replaces uint64) is the model's base_kind for EVERY type id; each scalar
+       reader hands struct.unpack exactly the bytes its format needs, and the model's decoding of those
+       bytes is struct.unpack's answer *)
+Theorem C13_kernel_readers :
+  (forall t, StructPack.dict_get SerKernels.gen_deserialize_types t
+             = option_map SerKernelsP.reader_of_kind (base_kind t)) /\
+  (forall t c n, StructPack.dict_get SerKernels.gen_deserialize_types t = Some (StructPack.RUnpack c n) ->
+                 n = StructPack.fsizeZ c) /\
+  (forall c l, StructPack.sp_signed c = true -> len l = StructPack.fsizeZ c ->
+               StructPack.unpack1 c l = Ok (be_dec_signed l)) /\
+  (forall c l, StructPack.sp_signed c = false -> c <> StructPack.Fbool -> c <> StructPack.Ff -> c <> StructPack.Fd ->
+               len l = StructPack.fsizeZ c -> StructPack.unpack1 c l = Ok (be_dec l)).
+Proof.
+  split; [exact SerKernelsP.gen_table_is_base_kind|]. split; [exact SerKernelsP.gen_table_sizes|].
+  split; [exact SerKernelsP.unpack1_signed|exact SerKernelsP.unpack1_unsigned].
+Qed.
+Print Assumptions C13_kernel_readers.
+
+(* the translated source on the width boundaries: -129 takes two bytes, 2^63 is refused, id 11 reads a float32 *)
+Example ex_kernel_int :
+  SerKernels.gen_serialize_int (-129) = Ok [x00; x04; xff; x7f] /\
+  SerKernels.gen_serialize_int (2 ^ 63) = Err EStruct /\
+  StructPack.dict_get SerKernels.gen_deserialize_types 11 = Some (StructPack.RUnpack StructPack.Ff 4).
+Proof. repeat split. Qed.
